@@ -2,7 +2,7 @@
    Directives used: those of ExtrOcamlBasic (bool, option, unit, list, prod, sumbool, comparison -> OCaml natives)
    and of ExtrOcamlString (ascii -> char, string -> char list).  nat, positive, N, Z stay extracted inductives. *)
 From Coq Require Import ExtrOcamlBasic ExtrOcamlString.
-From SV Require Import Quote Quote51 QuoteX QuoteMore Bracket Number Expr Parens DiffJson DiffUnified Sched CliModel.
+From SV Require Import Quote Quote51 QuoteX QuoteMore Bracket Number Expr Parens DiffJson DiffUnified Sched CliModel SortReq.
 Extraction Language OCaml.
 Cd "../.cache/ml".
 Separate Extraction
@@ -16,5 +16,6 @@ Separate Extraction
   DiffJson.mismatches DiffJson.mismatches_at DiffJson.annotate DiffJson.apply_json DiffJson.olds DiffJson.news
   DiffUnified.apply DiffUnified.merge DiffUnified.view DiffUnified.olds DiffUnified.news
   Sched.find_bad_schedule Sched.run Sched.pending Sched.threads_of Sched.mono_prog
-  CliModel.run CliModel.level CliModel.diff_printed.
+  CliModel.run CliModel.level CliModel.diff_printed
+  SortReq.sort_requires SortReq.str_leb SortReq.groups.
 Cd "../../coq".
